@@ -62,7 +62,7 @@ CHECKS = {
    "argc, envc in 0..=8 (thorough 12) x 10 rotations of the string shapes {empty,1,7,8,15,16,17,300 bytes, multi-byte UTF-8, 0x1001 bytes} x 8 stack sizes (0..0x2000 incl. odd) x 4 layouts, plus stacks of 1-4 MiB for small lists; the frame is read back by executing guest `pop rax` instructions and following the pointers; alignment, NUL termination, order, writability, pairwise disjointness of all areas, no collision with the image, space left below RSP >= requested size - 16.",
    "The guest observes the frame through the emulator's own POP; contents of padding are not checked.", "4/C17"),
  "C18": (EN, "exhaustive enumeration of short control-flow programs against an independent tracer; renderers total",
-   "Every one of the 34 conditional-jump forms x 64 flag states x 3 RCX values as a single-jump case, and every program of <= 5 (thorough 6) items over 16 control-flow items (incl. jmp / call through a pointer slot in the code) (jumps, countdown loop, taken/untaken je, call, ret - transfers whose target is and is not the fall-through address -, push+ret = unmatched return, call/jmp through rax, int3, call/ret pair, one indirect jump taken twice with two targets, direct self-recursion, one ret executed twice with the same target) stepped under an instruction limit (programs shorter than the bound also on a 16-byte stack, where nested calls fault); after every step the structured trace and call stack are compared with an independent tracer (own decode, condition evaluation, run-length collapse, level bookkeeping) and trace()/call_stack()/to_string() are rendered under catch_unwind and an allocation guard.",
+   "Every one of the 34 conditional-jump forms x 64 flag states x 3 RCX values as a single-jump case, and every program of <= 5 (thorough 6) items over 16 control-flow items (quick: lengths 1-4 completely, length 5 as far as a 45 s cap allows - the evidence says `exhaustive: false` and names the index reached) (incl. jmp / call through a pointer slot in the code) (jumps, countdown loop, taken/untaken je, call, ret - transfers whose target is and is not the fall-through address -, push+ret = unmatched return, call/jmp through rax, int3, call/ret pair, one indirect jump taken twice with two targets, direct self-recursion, one ret executed twice with the same target) stepped under an instruction limit (programs shorter than the bound also on a 16-byte stack, where nested calls fault); after every step the structured trace and call stack are compared with an independent tracer (own decode, condition evaluation, run-length collapse, level bookkeeping) and trace()/call_stack()/to_string() are rendered under catch_unwind and an allocation guard.",
    "Nesting depth is read literally (+1 after a call, -1 after a return, also when returns outnumber calls); the entry for a finishing top-level RET is neither required nor forbidden.", "4/C18"),
  "C19": (EN, "exhaustive enumeration of byte-string prefixes and structured encodings in supervised workers: crash/hang freedom",
    "Every 1- and 2-byte code prefix x 4 fillers (thorough: every 3-byte prefix x 2 fillers) and the structured family legacy-prefix x REX x all 512 opcodes x all 256 ModRM x SIB menu, each stepped in 6 (layout, register, FS/GS base) states incl. all-zero / all 2^64-8 registers, areas at both ends of the address space and an execute-only code area; plus the `syscall` instruction with the built-in brk/pipe/exit/arch_prctl handlers installed x 9 numbers x 14 x 12 x 12 argument values x 3 histories; plus every register-direct instruction with an 8-bit immediate x all 256 immediates x 8 values in every register x 2 flag states; plus every program of <= 4 items over 12 control-flow and failing instructions run for up to 10 steps (a failing step renders the history before it); plus every 2-byte prefix x 4 fillers cut to every length 1..14 as the whole code area (also with a short executable, a data or an executable area directly behind it); under catch_unwind, an allocation guard and a hang watchdog: the step returns Ok or Err. The thorough tier repeats the quick enumeration on a build with debug assertions.",
